@@ -222,6 +222,14 @@ def explore_server(r, h1, rnd, n, stdlib):
                 case_steps = []
                 for (p, t) in h["versions"]:
                     ver += 1
+                    reopened = False
+                    if p in seen and i >= len(corpus) and rnd.random() < 0.2:
+                        # the document is closed and opened again with this version (its text may have
+                        # changed while it was closed)
+                        srv.close(p)
+                        seen.discard(p)
+                        reopened = True
+                        h["tags"].append("close-reopen")
                     ds = srv.open(p, t) if p not in seen else srv.change(p, t, ver)
                     seen.add(p)
                     latest.pop(p, None)
@@ -233,7 +241,7 @@ def explore_server(r, h1, rnd, n, stdlib):
                     if any(not x[5] for x in pub) or any(x[0] not in VALID_CODES for x in pub):
                         bad.append({"why": "malformed diagnostic (range spans lines / wrong source / unknown code)", "diagnostics": ds,
                                     "pyproject": text, "history": h["versions"]})
-                    case_steps.append({"op": "analyze", "path": p, "text": t, "published": pub, "fresh_ops":
+                    case_steps.append({"op": "analyze", "path": p, "text": t, "published": pub, "closed_before": reopened, "fresh_ops":
                                        [{"op": "analyze", "path": q, "text": tt} for q, tt in last_valid.items()]})
             finally:
                 try:
@@ -259,7 +267,10 @@ def explore_server(r, h1, rnd, n, stdlib):
                 o = obs[m["id"] * 1000 + k]["obs"]
                 fresh = lib_findings(o[-3], o[-2], o[-1]) if not any(isinstance(x, dict) and "panic" in x for x in o[-3:]) else []
                 st["fresh"] = fresh
+                if st.get("closed_before"):
+                    cs.append("Ev19 (" + core.coq_step({"op": "close", "path": st["path"]}, None, ids, stdlib)[3:] + ")")
                 cs.append("Ev19 (" + core.coq_step({"op": "analyze", "path": st["path"], "text": st["text"]}, None, ids, stdlib)[3:] + ")")
+                m.setdefault("pub_at", {})[len(cs)] = k
                 cs.append("Pub19 %s %s %s %s" % (L.cpath(st["path"]), L.cbool(C06.is_valid(st["text"])), L.clist([cdiag(x) for x in st["published"] if x[0] in VALID_CODES]),
                                               L.clist([cdiag(x) for x in fresh])))
             terms.append((m["id"], "(%s, %s)" % (L.clist([L.cstr(x) for x in m["raw"]]), L.clist(cs))))
@@ -269,6 +280,13 @@ def explore_server(r, h1, rnd, n, stdlib):
     finally:
         shutil.rmtree(base, ignore_errors=True)
     return results, bad
+
+
+def notif_index(m, coq_step):
+    """index of the notification whose Pub19 step is (or precedes) the given step of the Coq case"""
+    at = m.get("pub_at", {})
+    ks = [k for i, k in sorted(at.items()) if i <= coq_step]
+    return ks[-1] if ks else 0
 
 
 def server_history_failures(r, h1, rnd, n, stdlib):
@@ -281,7 +299,7 @@ def server_history_failures(r, h1, rnd, n, stdlib):
     for m, cs in results:
         corr, prop, known, mb = runner.classify(cs, listed.keys())
         if prop:
-            k0 = (prop[0] - len(m.get("indexed", {}))) // 2
+            k0 = notif_index(m, prop[0])
             st = m["steps"][k0]
             out.append({"why": "after this history the real server does not answer as a server started fresh on the latest contents: "
                                "the findings it publishes for the document notified last differ",
@@ -315,7 +333,7 @@ def run(r):
     for k, b in enumerate((cfg_bad + srv_bad)[:2]):
         r.violation(dict({"property": PID}, **b), "direct_%d" % k)
     for k, (m, prop) in enumerate(sorted(prop_fail, key=lambda x: len(x[0]["steps"]))[:3]):
-        k0 = (prop[0] - len(m.get("indexed", {}))) // 2
+        k0 = notif_index(m, prop[0])
         st = m["steps"][k0]
         r.violation({"property": PID, "why": "the diagnostics the client received are not (findings of a fresh database for the latest contents) minus the disabled codes",
                      "pyproject": m["pyproject"], "disabled_raw": m["raw"], "notification_index": k0, "on_disk_before_start": m.get("indexed", {}),
@@ -324,7 +342,7 @@ def run(r):
     if (corr_fail or cfg_corr) and not r.violations:
         if corr_fail:
             m, corr = corr_fail[0]
-            k1 = max(0, (corr[0] - len(m.get("indexed", {}))) // 2)
+            k1 = notif_index(m, corr[0])
             st = m["steps"][k1]
             detail = {"pyproject": m["pyproject"], "history": [(s["path"], s["text"]) for s in m["steps"][:k1 + 1]], "published": st["published"],
                       "on_disk_before_start": m.get("indexed", {})}
